@@ -56,7 +56,7 @@ def _vuo_gen(rng, tier):
 def proof_items():
     from contracts import misc
     from vf.driver import ProofItem
-    from contracts import mapspec, shape
+    from contracts import mapspec, shape, small
     from props.C08 import _vshape_gen
     return [ProofItem(misc.validate_unique_output_names, gen=_vuo_gen),
             # the map-level rejections of surplus / missing arrays and wrong ranks come from here
@@ -65,6 +65,9 @@ def proof_items():
             ProofItem(misc.validate_complete_inputs, gen=misc.vci_gen),
             # the "inconsistent defaults" fault class
             ProofItem(misc.validate_consistent_defaults, gen=misc.vcd_gen),
+            # a list / tuple given where the MapSpecs index an input with more than one axis
+            ProofItem(small.check_inputs, gen=small.ci_gen,
+                      registry=lambda: {**{c.short: c for c in small.CHECK_INPUTS}, **{c.name: c for c in small.CHECK_INPUTS}}),
             # rank / zipped-dimension mismatch of the inputs of a map (thorough tier: ~45 s of solver time)
             ProofItem(shape.mapspec_shape, gen=shape.shape_gen, thorough_only=True)]
 
